@@ -7,7 +7,7 @@ from fractions import Fraction
 
 from . import dates as rd
 
-NUM_TEXT = re.compile(r'\A[+-]?(\d+(\.\d*)?|\.\d+)\Z')
+NUM_TEXT = re.compile(r'\A[+-]?(\d+(\.\d*)?|\.\d+)([eE][+-]?\d+)?\Z')        # scientific notation spells a number too (it is how the library's own & writes large and small floats)
 ISO_TEXT = re.compile(r'\A\d{4}-\d{2}-\d{2}([ T]\d{2}:\d{2}:\d{2})?\Z')
 
 
@@ -42,7 +42,7 @@ def classify(v):
         return 'date', rd.serial_exact(v)
     if isinstance(v, str):
         if NUM_TEXT.match(v):
-            return 'number', Fraction(v) if '.' not in v else Fraction(float(v))
+            return 'number', Fraction(v) if ('.' not in v and 'e' not in v.lower()) else Fraction(float(v))
         if ISO_TEXT.match(v):
             return classify(datetime.datetime.fromisoformat(v.replace(' ', 'T')))
         return 'badtext', None
